@@ -16,18 +16,17 @@ theorem read_writeDeps_fail {A : Aead} (hA : A.Lawful) {C : Codec Y} (hC : C.Law
     (hbad : ∀ (st : RState Y) (n : Name) (k : Nat) (x : Bytes), '.' ∉ n →
       readMember A C rpw st (n ++ secEncSuffix, encrypt A pw (rnd k).1 (rnd k).2 x) = .error e) :
     ∀ (ds : List (Option Name × Y)) (k : Nat) (st : RState Y),
-      (∀ d ∈ ds, validName (depName d) = true) → (ds.map depName).Nodup →
+      (∀ d ∈ ds, '.' ∉ depName d) → (ds.map depName).Nodup →
       (∀ d ∈ ds, Fresh st (depName d)) → (∃ d ∈ ds, alookup (depName d) secrets ≠ none) →
       readMembers A C rpw st (members (writeDeps A C (some pw) rnd secrets gens k ds)) = .error e
   | [], _, _, _, _, _, hex => by obtain ⟨d, hd, _⟩ := hex; cases hd
   | d :: ds, k, st, hv, hnd, hf, hex => by
-    have hv0 := hv d (List.mem_cons_self ..)
-    have hdot := validName_dotfree hv0
+    have hdot := hv d (List.mem_cons_self ..)
     simp only [writeDeps, members, List.map_append]
     rw [readMembers_append]
     cases hs : alookup (depName d) secrets with
     | none =>
-      have h1 := read_writeDep hA hC (some pw) rpw hr secrets gens k d st hv0
+      have h1 := read_writeDep hA hC (some pw) rpw hr secrets gens k d st hdot
         (hf d (List.mem_cons_self ..)) (Or.inl hs)
       simp only [members] at h1
       rw [h1]
